@@ -440,6 +440,8 @@ func runScenario(sc *scenario) *runResult {
 		}
 	}
 
+	t0 := time.Now()
+	us := func() int64 { return time.Since(t0).Microseconds() }
 	var wg sync.WaitGroup    // submitters
 	var fnWg sync.WaitGroup  // functions of Start* tasks
 	var lastEnd atomic.Int64 // unix nanos of the last function end
@@ -452,7 +454,7 @@ func runScenario(sc *scenario) *runResult {
 			if counted {
 				defer fnWg.Done()
 			}
-			rec.h("fnbegin", tid, 0)
+			rec.h("fnbegin", tid, us())
 			sleepUs(t.RunUs)
 			rec.h("fnend", tid, 0)
 			lastEnd.Store(time.Now().UnixNano())
@@ -475,7 +477,7 @@ func runScenario(sc *scenario) *runResult {
 				m := modOf(t)
 				d := maxDelayOf(t)
 				name := "t" + strconv.Itoa(tid)
-				rec.h("call", tid, 0)
+				rec.h("call", tid, us())
 				switch t.Var {
 				case 0:
 					var err error
@@ -515,7 +517,7 @@ func runScenario(sc *scenario) *runResult {
 						rec.h("signil", tid, 0)
 						continue
 					}
-					rec.h("fnbegin", tid, 0)
+					rec.h("fnbegin", tid, us())
 					sleepUs(t.RunUs)
 					rec.h("fnend", tid, 0)
 					lastEnd.Store(time.Now().UnixNano())
@@ -578,7 +580,7 @@ func runScenario(sc *scenario) *runResult {
 	}()
 	select {
 	case <-allDone:
-		res.settle = waitParked(5*time.Second, wantToks)
+		res.settle = waitParked(15*time.Second, wantToks)
 		res.parkedMs = parkedNoToken.Milliseconds()
 	case <-time.After(20 * time.Second):
 		// some call never returned (e.g. nothing is admitted any more): report, the process state is lost
@@ -884,7 +886,7 @@ func effDelay(t taskSpec) time.Duration {
 	case t.Prio == 1 && t.Var != 2:
 		return 3 * time.Second // documented default of the low-priority Run/Start variants
 	}
-	return time.Second // documented default ("0 … default value of 1 second")
+	return time.Second // documented default of the medium variants; for Signal*Low the smaller value is the lenient one
 }
 
 func monitor(c hxlib.Case, outs []string) []hxlib.Violation {
@@ -911,6 +913,7 @@ func monitor(c hxlib.Case, outs []string) []hxlib.Violation {
 	execs := make([]int, n)
 	running := map[int]bool{} // medium/low tasks inside their function / signalled section
 	highActive := map[int]bool{}
+	callAt := make([]int64, n)
 	shutdownBegun := false
 	maxML := 0
 	sigOnly := false // is the excess explained by Signal* tasks called with maxDelay 0 alone?
@@ -945,9 +948,9 @@ func monitor(c hxlib.Case, outs []string) []hxlib.Violation {
 			for _, kv := range f[4:] {
 				switch {
 				case strings.HasPrefix(kv, "settle=") && kv != "settle=ok":
-					add(sigSettle, "counter/queues/scheduler did not settle within 5s: "+kv[7:])
+					add(sigSettle, "counter/queues/scheduler did not settle within 15s: "+kv[7:])
 				case strings.HasPrefix(kv, "parkedms="):
-					if ms, _ := strconv.Atoi(kv[9:]); ms >= 250 {
+					if ms, _ := strconv.Atoi(kv[9:]); ms >= 400 {
 						add(sigWake, fmt.Sprintf("all microtasks finished, count 0, but the scheduler stayed parked at 'full' without a finished token for %d ms (it then needs the 1s recheck ticker)", ms))
 					}
 				case strings.HasPrefix(kv, "shutms="):
@@ -978,11 +981,17 @@ func monitor(c hxlib.Case, outs []string) []hxlib.Violation {
 		t := sc.Tasks[tid]
 		switch f[1] {
 		case "call":
+			callAt[tid] = a
 			if t.Prio == 2 {
 				highActive[tid] = true
 			}
 		case "fnbegin":
 			execs[tid]++
+			if t.DelayMs >= 0 && time.Duration(a-callAt[tid])*time.Microsecond >= effDelay(t)*2/5 {
+				// the task waited (nearly) as long as its maximum delay: from here on the proviso
+				// "no maximum delay has expired" may be void (tolerance in the implementation's favour)
+				expired = true
+			}
 			if t.Prio != 2 {
 				running[tid] = true
 				if len(running) > maxML {
